@@ -2471,6 +2471,14 @@ setattr_trait(
                     value = traito->getattr(traito, obj, name);
                 }
                 if (value == NULL) {
+                    /* The value the attribute reverts to could not be
+                       computed (for example its default method raised):
+                       undo the deletion, so that the failed operation
+                       leaves the object as it was. */
+                    PyObject *exc_type, *exc_value, *exc_traceback;
+                    PyErr_Fetch(&exc_type, &exc_value, &exc_traceback);
+                    PyDict_SetItem(dict, name, old_value);
+                    PyErr_Restore(exc_type, exc_value, exc_traceback);
                     Py_DECREF(old_value);
                     return -1;
                 }
